@@ -179,13 +179,14 @@ func x64ArmSlots(arm Arm) (pops []string, push string) {
 	return
 }
 
-func c02Conversions(c *Ctx, p *Prog, pk *packages.Package) {
+func c02Conversions(c *Ctx, p *Prog, pk *packages.Package) map[string]bool {
+	decided := map[string]bool{}
 	const rule = "x64-conversion-semantics"
 	info := pk.TypesInfo
 	fd := findBuildFuncIns(pk)
 	if fd == nil {
 		c.Undecided(rule, "anchor:wat2x64.buildFunc_ins", "", "instruction dispatcher not found")
-		return
+		return decided
 	}
 	arms := map[string]Arm{}
 	for _, sw := range FindSwitches(fd, func(ast.Expr) bool { return true }) {
@@ -305,26 +306,24 @@ func c02Conversions(c *Ctx, p *Prog, pk *packages.Package) {
 						c.Undecided(rule, mn, loc, und)
 						continue
 					}
+					decided[mn] = true
 					c.Check(len(bad) == 0 && cases > 0, rule, mn, loc, fmt.Sprintf("%d in-range operands agree with WebAssembly", cases), "interpreting the emitted instructions: "+strings.Join(bad, "; "))
 				}
 			}
 		}
 	}
-	c.Min(rule, "conversion arms of wat2x64", n, 16)
+	c.Min(rule, "conversion arms of wat2x64", n, 12)
+	return decided
 }
 
-// Rule x64-template-semantics: every numeric arm of wat2x64 with a fixed signature (integer and float arithmetic,
-// comparisons, bit counting, shifts and rotates, sign/zero extension, wrap, reinterpret, promote/demote, rounding) is
-// interpreted over the instruction model for a grid of boundary operands (all pairs for binary instructions) and the
-// stored result is compared with WebAssembly's (wasmnum.go). Operands WebAssembly traps on are skipped (the
-// translators have no trap model); a divide fault of the model on operands that do not trap is a violation.
-func c02TemplateSemantics(c *Ctx, p *Prog, pk *packages.Package) {
+func c02TemplateSemantics(c *Ctx, p *Prog, pk *packages.Package) map[string]bool {
+	decided := map[string]bool{}
 	const rule = "x64-template-semantics"
 	info := pk.TypesInfo
 	fd := findBuildFuncIns(pk)
 	if fd == nil {
 		c.Undecided(rule, "anchor:wat2x64.buildFunc_ins", "", "instruction dispatcher not found")
-		return
+		return decided
 	}
 	arms := map[string]Arm{}
 	for _, sw := range FindSwitches(fd, func(ast.Expr) bool { return true }) {
@@ -450,9 +449,11 @@ func c02TemplateSemantics(c *Ctx, p *Prog, pk *packages.Package) {
 			c.Undecided(rule, m, loc, und)
 			continue
 		}
+		decided[m] = true
 		c.Check(len(bad) == 0 && cases > 0, rule, m, loc, fmt.Sprintf("%d operand tuples agree with WebAssembly", cases), "interpreting the emitted instructions: "+strings.Join(bad, "; "))
 	}
-	c.Min(rule, "numeric arms of wat2x64 interpreted", n, 100)
+	c.Min(rule, "numeric arms of wat2x64 interpreted", n, 80)
+	return decided
 }
 
 func fmtOperands(a []uint64) string {
@@ -461,4 +462,159 @@ func fmtOperands(a []uint64) string {
 		s = append(s, fmt.Sprintf("%#x", v))
 	}
 	return "(" + strings.Join(s, ", ") + ")"
+}
+
+// Rule x64-memory-access-semantics: the 23 load and store arms of wat2x64 are interpreted with a linear memory behind
+// the memory-base symbol. A load must answer the bytes at address + offset, little endian, extended as the mnemonic
+// says, whatever the upper half of the address slot holds; a store must write exactly the low bytes of the value at
+// address + offset and nothing else.
+func c02MemoryAccess(c *Ctx, p *Prog, pk *packages.Package) map[string]bool {
+	const rule = "x64-memory-access-semantics"
+	decided := map[string]bool{}
+	info := pk.TypesInfo
+	fd := findBuildFuncIns(pk)
+	if fd == nil {
+		c.Undecided(rule, "anchor:wat2x64.buildFunc_ins", "", "instruction dispatcher not found")
+		return decided
+	}
+	arms := map[string]Arm{}
+	for _, sw := range FindSwitches(fd, func(ast.Expr) bool { return true }) {
+		for _, arm := range SwitchArms(info, sw) {
+			arms[arm.Names()] = arm
+		}
+	}
+	const poison = uint64(0xDEADBEEF) << 32
+	const memBase = uint64(0x0000100000000000)
+	pattern := []byte{0x80, 0x7F, 0xFF, 0x01, 0xFE, 0x00, 0x81, 0x55, 0xAA, 0x33}
+	n := 0
+	for _, m := range wasmSpecOrder {
+		sp := wasmSpec[m]
+		dot := strings.IndexByte(m, '.')
+		if dot < 0 {
+			continue
+		}
+		t, op := m[:dot], m[dot+1:]
+		isLoad, isStore := strings.HasPrefix(op, "load"), strings.HasPrefix(op, "store")
+		if !isLoad && !isStore || sp == nil {
+			continue
+		}
+		k := "INS_" + strings.ToUpper(strings.ReplaceAll(m, ".", "_"))
+		arm, ok := arms[k]
+		if !ok {
+			continue
+		}
+		loc := p.Pos(arm.Clause.Pos())
+		lines, okL := x64ArmLines(info, arm)
+		pops, push := x64ArmSlots(arm)
+		if !okL || (isLoad && (len(pops) != 1 || push == "")) || (isStore && len(pops) != 2) {
+			c.Undecided(rule, m, loc, "the arm is not a straight list of assembler lines with the instruction's operand slots")
+			continue
+		}
+		// the template argument that carries the memarg offset, and the memory-base symbol
+		offArg, symArg := "", ""
+		for _, l := range lines {
+			for _, a := range l.args {
+				if strings.HasSuffix(a, ".Offset") {
+					offArg = a
+				}
+				if strings.Contains(a, "MemoryAddr") {
+					symArg = a
+				}
+			}
+		}
+		if symArg == "" {
+			c.Undecided(rule, m, loc, "no read of the memory-base symbol in the arm")
+			continue
+		}
+		n++
+		tw := 32
+		if t == "i64" || t == "f64" {
+			tw = 64
+		}
+		// access width in bytes
+		nb := tw / 8
+		for _, w := range []string{"8", "16", "32"} {
+			if strings.HasPrefix(op, "load"+w) || strings.HasPrefix(op, "store"+w) {
+				nb = map[string]int{"8": 1, "16": 2, "32": 4}[w]
+			}
+		}
+		signed := strings.HasSuffix(op, "_s")
+		var bad []string
+		und := ""
+		cases := 0
+		for _, addr := range []uint64{0, 5, 0x7FFFFFF0, 0x80000000, 0xFFFFFF00} {
+			for _, off := range []int64{0, 16, 65536} {
+				if offArg == "" && off != 0 {
+					continue
+				}
+				for shift := 0; shift < 3 && und == ""; shift++ {
+					ea := memBase + addr + uint64(off)
+					world := &x64World{Syms: map[string]uint64{symArg: memBase}, Imms: map[string]int64{offArg: off}, Mem: map[uint64]byte{}, Written: map[uint64]byte{}}
+					var val uint64
+					for i := 0; i < 8; i++ {
+						b := pattern[(i+shift*3)%len(pattern)]
+						world.Mem[ea+uint64(i)] = b
+						if i < nb {
+							val |= uint64(b) << (8 * uint(i))
+						}
+					}
+					slots := map[string]x64Slot{}
+					if isLoad {
+						slots[pops[0]] = x64Slot{addr | poison, 32}
+						want := val
+						if signed && val>>(uint(nb*8)-1)&1 == 1 {
+							want |= ^maskBits(nb * 8)
+						}
+						want &= maskBits(tw)
+						got, w, why := x64RunW(lines, slots, push, world)
+						cases++
+						if why != "" {
+							und = why
+							break
+						}
+						if (got != want || w != tw || len(world.Written) != 0) && len(bad) < 3 {
+							bad = append(bad, fmt.Sprintf("%s at address %#x offset %d over the bytes % x stores %#x (%d-bit store), WebAssembly answers %#x", m, addr, off, []byte{world.Mem[ea], world.Mem[ea+1], world.Mem[ea+2], world.Mem[ea+3], world.Mem[ea+4], world.Mem[ea+5], world.Mem[ea+6], world.Mem[ea+7]}, got, w, want))
+						}
+						continue
+					}
+					// store: pops[0] is the value, pops[1] the address
+					v := uint64(0x8877665544332211) + uint64(shift)*0x0101010101010101
+					if tw == 32 {
+						slots[pops[0]] = x64Slot{(v & 0xFFFFFFFF) | poison, 32}
+					} else {
+						slots[pops[0]] = x64Slot{v, 64}
+					}
+					slots[pops[1]] = x64Slot{addr | poison, 32}
+					_, _, why := x64RunW(lines, slots, "", world)
+					cases++
+					if why != "" && why != "no store to the result slot" {
+						und = why
+						break
+					}
+					okw := len(world.Written) == nb
+					for i := 0; i < nb && okw; i++ {
+						if b, has := world.Written[ea+uint64(i)]; !has || b != byte(v>>(8*uint(i))) {
+							okw = false
+						}
+					}
+					if !okw && len(bad) < 3 {
+						var wr []string
+						for a, b := range world.Written {
+							wr = append(wr, fmt.Sprintf("[%#x]=%02x", a-memBase, b))
+						}
+						sortStrings(wr)
+						bad = append(bad, fmt.Sprintf("%s of %#x at address %#x offset %d writes %s; WebAssembly writes the %d low bytes at %#x", m, v&maskBits(tw), addr, off, strings.Join(wr, " "), nb, addr+uint64(off)))
+					}
+				}
+			}
+		}
+		if und != "" {
+			c.Undecided(rule, m, loc, und)
+			continue
+		}
+		decided[m] = true
+		c.Check(len(bad) == 0 && cases > 0, rule, m, loc, fmt.Sprintf("%d (address, offset, content) cases agree with WebAssembly", cases), "interpreting the emitted instructions: "+strings.Join(bad, "; "))
+	}
+	c.Min(rule, "load and store arms of wat2x64 interpreted", n, 18)
+	return decided
 }
